@@ -24,6 +24,27 @@ def is_tld_shape(tu):
         if alt is not None: return alt
         raise AnalysisBroken('is_tld no longer compares row->domain with the label in place (a different lookup algorithm): the lookup-shape rule cannot judge it; re-confirm R7.2 / R11.0')
     if not match: why.append('no path returns a class')
+    # every call on a lookup path must belong to the comparison family: anything else (an index builder, tolower, a
+    # helper) is a lookup algorithm this rule has no model for
+    foreign = sorted({c[1] for p in paths for c in p.calls() if c[1] not in cmpf and c[1] not in ('__ctype_b_loc',)})
+    if foreign:
+        raise AnalysisBroken(f'is_tld calls {foreign} during the lookup: a lookup algorithm the lookup-shape rule has no model for; re-confirm R7.2 / R11.0')
+    # a row may be passed over only after it was compared: an iteration that reaches the back edge without a comparison
+    # filters rows on some other condition
+    for p in paths:
+        seg = None
+        for e in p.events:
+            if e[0] == 'loop' and (e[1].endswith(':enter') or e[1].endswith(':again')): seg = []
+            elif e[0] == 'loop' and e[1].endswith(':backedge'):
+                if seg is not None and not any(x[0] == 'call' and x[1] in cmpf for x in seg):
+                    conds = [x for x in seg if x[0] == 'cond' and not re.fullmatch(r".+->domain", x[1])]
+                    direct = [x for x in conds if re.fullmatch(r"\((?:\*?[^()]*->domain(?:\[\d+\])?|\*" + re.escape(start) + r"|" + re.escape(start) + r"\[\d+\]) (?:!=|==) (?:\*?[^()]*->domain(?:\[\d+\])?|\*" + re.escape(start) + r"|" + re.escape(start) + r"\[\d+\])\)", x[1])]
+                    if direct:
+                        why.append(f'a row is passed over without strncasecmp on the byte-exact test {direct[0][1]} (table entries are lower case, the label need not be: the match is no longer case-insensitive)')
+                    else:
+                        raise AnalysisBroken(f'is_tld passes over a row without comparing it, on {[x[1] for x in conds]}: a filter the lookup-shape rule has no model for; re-confirm R7.2 / R11.0')
+                seg = None
+            elif seg is not None: seg.append(e)
     for p in match:
         calls = [c for c in p.calls() if c[1] not in ('__ctype_b_loc',)]
         if not calls or any(c[1] != 'strncasecmp' for c in calls) or any(not p.passed(c[3], True) for c in calls[:-1]):
